@@ -63,10 +63,30 @@ def _get_classes():
             self._tick()
             return super(CountingTokenReader, self).skip_space_chars(parsing_state)
 
+    from pylatexenc.latexnodes import ParsingStateDelta
+
+    class NoCommentsInMathHandler(object):
+        """A user's parsing-state event handler (the documented hook
+        LatexWalker.parsing_state_event_handler()): comments are off inside math."""
+
+        def enter_math_mode(self, math_mode_delimiter=None, trigger_token=None):
+            return ParsingStateDelta(set_attributes=dict(
+                in_math_mode=True, math_mode_delimiter=math_mode_delimiter, enable_comments=False))
+
+        def leave_math_mode(self, trigger_token=None):
+            return ParsingStateDelta(set_attributes=dict(
+                in_math_mode=False, math_mode_delimiter=None, enable_comments=True))
+
     class BudgetWalker(LatexWalker):
         def __init__(self, s, **kwargs):
             self.sim_clock = [0, kwargs.pop('sim_budget', None) or budget_for(s)]
+            self.sim_custom = kwargs.pop('sim_custom', None)
             super(BudgetWalker, self).__init__(s, **kwargs)
+
+        def parsing_state_event_handler(self):
+            if self.sim_custom:
+                return NoCommentsInMathHandler()
+            return super(BudgetWalker, self).parsing_state_event_handler()
 
         def make_token_reader(self, pos=None):
             tr = CountingTokenReader(self.s, self.sim_clock,
